@@ -306,7 +306,7 @@ Read(st, side, sid, n, eos, res, dataOk) ==
        ELSE st
 
 \* after the fair finish: everything written on a healthy flow was read, in order, and flushed
-Final(st, side, sid, written, peerRead, flushed, peerHasReader, quiescent, dead) ==
+Final(st, side, sid, written, peerRead, flushed, parked, peerHasReader, quiescent, dead) ==
     LET k == Key(sid, side)
         rcv == Peer(side)
         live == ~dead /\ st.dead = {} /\ quiescent /\ peerHasReader /\ k \notin st.ended
@@ -314,6 +314,8 @@ Final(st, side, sid, written, peerRead, flushed, peerHasReader, quiescent, dead)
                 /\ (IsUni(sid) \/ InitWindow(st.cfg[side], side, sid) >= 0)
     IN IF ~live THEN st
        ELSE IF written # Get(st.wr, k, 0) THEN Fail(st, "harness bookkeeping")
+       ELSE IF parked > 0 /\ written < SndLimOf(st, k) /\ k \notin st.shut
+            THEN Fail(st, "a write parked on the stream window was never woken although the window has room again (C01)")
        ELSE IF peerRead # written THEN Fail(st, "written bytes never became readable although the network delivered everything (C01)")
        ELSE IF ~flushed THEN Fail(st, "flush does not complete although everything was acknowledged (C01)")
        ELSE IF k \in st.shut /\ k \notin st.eos THEN Fail(st, "end of stream never reported although FIN could be delivered (C01)")
